@@ -7,6 +7,7 @@ pub mod c02;
 pub mod c03;
 pub mod c04;
 pub mod c06;
+pub mod c07;
 pub mod c08;
 pub mod c10;
 
@@ -24,7 +25,7 @@ pub fn lookup(id: &str) -> Option<&'static Entry> {
     ALL.iter().find(|e| e.id == id)
 }
 
-pub static ALL: &[Entry] = &[c01::ENTRY, c02::ENTRY, c03::ENTRY, c04::ENTRY, c06::ENTRY, c08::ENTRY, c10::ENTRY];
+pub static ALL: &[Entry] = &[c01::ENTRY, c02::ENTRY, c03::ENTRY, c04::ENTRY, c06::ENTRY, c07::ENTRY, c08::ENTRY, c10::ENTRY];
 
 pub fn replay(ctx: &Ctx, path: &str) -> i32 {
     common::replay_file(ctx, path)
@@ -33,6 +34,7 @@ pub fn replay(ctx: &Ctx, path: &str) -> i32 {
 pub fn replay_special(_ctx: &Ctx, case: &serde_json::Value) -> i32 {
     match case["kind"].as_str() {
         Some("c06") => return c06::replay(case),
+        Some("c07") => return c07::replay(case),
         _ => {}
     }
     eprintln!("no special replay for kind {}", case["kind"]);
